@@ -285,7 +285,7 @@ SLICE_S = 4.0       # a worker gives the rest of a crash-heavy piece back to the
 
 def timeout_for(ncases, algo):
     """Generous (the machine is shared): only a genuine hang ever waits this long; deadlocks are reported by SimGrid at once."""
-    return 60.0 + 0.1 * ncases * (25 if algo == "automatic" else 1)
+    return min(30.0 + 0.1 * ncases * (25 if algo == "automatic" else 1), 400.0)
 
 
 def bad_kind(b):
@@ -337,9 +337,11 @@ def run_piece(task):
         if n >= threshold(kind):
             # every further case of this (np, count) cell would cost one more dead simulation: the cell is a
             # recorded failure already, its remaining cases are reported as not run
-            drop = [i for a, b in pending for i in range(a, b) if cells[i] == cell]
+            # (a genuine hang costs a full timeout per simulation: it ends this piece of the shard altogether)
+            whole = kind.startswith("hang")
+            drop = [i for a, b in pending for i in range(a, b) if whole or cells[i] == cell]
             if drop:
-                pending = _compress([i for a, b in pending for i in range(a, b) if cells[i] != cell])
+                pending = _compress([i for a, b in pending for i in range(a, b) if not whole and cells[i] != cell])
                 out["cut"].append((cell[0], cell[1], kind, len(drop)))
 
     def threshold(kind):
@@ -413,7 +415,7 @@ def run_piece(task):
         kind, text = classify(res)
         if kind == "hang":
             # a timeout is a hang only if a case in progress also hangs alone; otherwise the machine was just slow
-            alone = {cid: go([(cid, cid + 1)], 120.0) for cid in res.inprog}
+            alone = {cid: go([(cid, cid + 1)], 60.0) for cid in res.inprog}
             if all(r.complete for r in alone.values()):
                 slow *= 3
                 if slow > 30:
@@ -588,7 +590,7 @@ def _run(ctx, binary, d):
         groups = {}
         for shard in shards:          # flat before smp4 by construction of the list
             a = acc[shard]
-            if not a["started"] or a.get("abandoned"):
+            if not a["started"]:     # (an abandoned shard is not counted as completed, but what it already showed is reported)
                 continue
             coll, algo, layout = shard
             fl = sorted(x for p in a["pieces"] for x in p["failures"])
@@ -694,7 +696,7 @@ def summarize(ctx, acc, shards, case_lists, grid, algos, groups, conf):
         "exhaustive_outside_cut_cells": not_started == 0,
         "cases_not_run_because_mpi_setup_itself_fails_with_the_algorithm": blocked,
         "cells_cut_short": cut_cells, "cases_not_run_in_cut_cells": cut_cases,
-        "cut_rule": "a (collective, algorithm, layout, np class, count class) cell - the granularity of the case key - whose cases killed %d simulations the same way (1 for a hang) is a "
+        "cut_rule": "(a confirmed hang ends its piece of the shard) a (collective, algorithm, layout, np class, count class) cell - the granularity of the case key - whose cases killed %d simulations the same way (1 for a hang) is a "
                     "recorded failure; its remaining cases (other types/ops/roots/variants) are not run" % CUT_AFTER,
         "grid": "quick: np{1,2,3,4,5,8} roots{0,np-1} counts{0,1,np+1}" if ctx.quick else
                 "thorough: np 1..17, all roots, counts{0,1,2,np-1,np,np+1,1000}",
